@@ -13,7 +13,7 @@ from pv.runner import Res
 ID = "C11"
 RULE = ("token trees (exhaustive up to a node bound over tokens a/B/?x, random beyond with PDDL's token "
         "alphabet) rendered with generated separators (space, tab, LF, CRLF, comments at line end / own line / "
-        "between tokens with generated comment text incl. control and non-ASCII characters, optional gaps next to parentheses) and letter-case modes, read from string and from "
+        "between tokens, single physical lines of 5 - 100 KiB, generated comment text incl. control and non-ASCII characters, optional gaps next to parentheses) and letter-case modes, read from string and from "
         "file; plus every single parenthesis deletion/insertion and trailing text.  Non-trivial = the tree "
         "has depth >= 2 and the text uses >= 2 distinct separators, or the text is a malformed variant. "
         "Distinct by (text, mode).")
@@ -145,8 +145,36 @@ def _count_seps(layout_choices):
     return len(set(layout_choices))
 
 
+def gen_long_line(ch):
+    """One physical line far beyond the usual buffer sizes (4 KiB, 8 KiB, 64 KiB): many tokens separated by
+    single blanks, or a short form followed by a very long comment."""
+    toks = ["".join(ch.choice(ALPHA[:33]) for _ in range(ch.int(1, 12))) for _ in range(40)]
+    n = ch.choice([900, 1500, 2500, 12000])
+    items, depth_open = [], 0
+    tree = []
+    stack = [tree]
+    for i in range(n):
+        r = ch.int(0, 19)
+        if r == 0 and len(stack) < 6:
+            new = []
+            stack[-1].append(new)
+            stack.append(new)
+        elif r == 1 and len(stack) > 1:
+            stack.pop()
+        else:
+            stack[-1].append(toks[ch.int(0, 39)])
+    if ch.flag(0.3):
+        small = ["define", ["domain", "d"], toks[0]]
+        text = "(define (domain d) " + toks[0] + ") ;" + " ".join(toks[ch.int(0, 39)] for _ in range(n)) + "\n"
+        return _mk(text, sexpr.read(sexpr.flat(small)), ch.choice(["both", "file"]), 3, 2)
+    text = sexpr.flat(tree)
+    return _mk(text, sexpr.read(text), ch.choice(["both", "file"]), 2, 2)
+
+
 def gen(ch, tier):
     big = tier == "thorough"
+    if ch.flag(0.004):
+        return gen_long_line(ch)
     tree = gen_tree(ch, ch.int(1, 40 if big else 25))
     nchoices = ch.int(0, 60)
     choices = [ch.int(0, 10) for _ in range(nchoices)]
